@@ -525,6 +525,7 @@ func main() {
 		c.close()
 	}
 	timeframePart(run, root)
+	firstRequestsTogether(run)
 	run.Floor("timeframe_decisions", 10000)
 	run.Floor("timeframe_inside", 500)
 	run.Floor("refused_checked", int64(nConf*nReq/6))
